@@ -13,7 +13,9 @@ func init() { register("C17", checkC17) }
 
 func checkC17(p *load.Program, r *kit.Report) {
 	importRules(p, r, "C09", "after the marked header was trimmed the header files still hold it and its descendants until the next save: range queries must not read above the tip", 3, nil, "TIP-BOUND")
-	r.NotDecided = "fallback to the heaviest remaining chain and exclusion of descendants as behaviour over histories; the long-lived heights map still answering for trimmed headers (property's own note)."
+	r.NotDecided = "fallback to the heaviest remaining chain and exclusion of descendants as behaviour over histories; HashHeight still answering with the old height for trimmed headers (the long-lived map never shrinks)."
+	r.Rule("FLAG-RULE", "a trimmed header stays in the long-lived height map: CheckHeader/GetHeader report `in most-work chain` only after comparing the hash with the most-work chain's header at that height, never from map membership", 4)
+	checkFlagRule(p, r)
 	r.Rule("NIL-FLOW", "a pointer known nil by a dominating test edge is never dereferenced nor passed to a callee that dereferences that parameter before testing it (all functions of the two packages)", 1)
 	r.Rule("GUARD-DOM", "every effect of ProcessHeader is behind the refusal loop over repo.invalidHashes comparing with the submitted hash; Branches.Trim in MarkHeaderInvalid is behind the found edge of Find(hash) and gets that call's branch and height", 6)
 	r.Rule("MUST-PASS", "after the invalid list changes, saveInvalidHashes(repo.invalidHashes) precedes every nil return (MarkHeaderInvalid, MarkHeaderNotInvalid); after a successful Trim the tip is re-selected with Longest() on every path; Save and clean persist the list", 5)
